@@ -711,9 +711,31 @@ def aggregate_pair(rng, T, G, fail=(), tag='ag', hold_s=0.0):
                      % (G, a['exit_code'], a['outcome'], b['roots'], b['exit_code'], b['outcome']))
     if a['keepalive'] != b['keepalive']:
         texts.append('liveness differs: %s keeps zinoma alive: %s; its dependencies: %s' % (G, a['keepalive'], b['keepalive']))
+    flat = None
+    if not texts and not fail and a['outcome'] != 'exited' and not service_behind(T, G):
+        # both requests end the same way, but not by exiting although no service is behind G: "nesting aggregates does not change
+        # this" — compare with requesting the builds behind G directly (aggregates unfolded all the way down)
+        def unfold(t, seen):
+            if t in seen:
+                return []
+            seen.add(t)
+            if T[t]['kind'] != 'aggregate':
+                return [t]
+            out = []
+            for x in T[t]['deps']:
+                out += unfold(x, seen)
+            return out
+        lv = list(dict.fromkeys(unfold(G, set())))
+        if lv:
+            r = __import__('random').Random(rng.getrandbits(32))
+            obs3, _V3 = oneshot(r, T, lv, fail=fail, gated=True, tag=tag, hang_s=2.0, hold_s=hold_s, second_run=False)
+            flat = {'roots': lv, 'outcome': obs3['outcome'], 'exit_code': obs3['exit_code']}
+            if obs3['outcome'] == 'exited':
+                texts.append('nesting changes the outcome: requesting %s -> %s (never exits, no service behind it); requesting the '
+                             'targets behind it %s -> exited with status %s' % (G, a['outcome'], lv, obs3['exit_code']))
     if texts:
         V['C20'] = texts
-    obs = {'targets': T, 'aggregate': G, 'fail': sorted(fail),
+    obs = {'targets': T, 'aggregate': G, 'fail': sorted(fail), 'requesting_unfolded': flat,
            'requesting_aggregate': {k: (sorted(v) if isinstance(v, set) else v) for k, v in a.items() if k not in ('V',)},
            'requesting_dependencies': {k: (sorted(v) if isinstance(v, set) else v) for k, v in b.items() if k not in ('V',)}}
     return obs, V
